@@ -2,7 +2,8 @@
 // class against the mock integrator, prints one result line per Solve call.
 //
 //   run <id> <nsolve> <nsys> [<overlap: keep the previous object alive during this run>]
-//   solve <mode> <reset: 0 no, 1 Reset(), 2 Finalize()+Init()+Reset()> <mxsteps> <dt> <ny0> <y0...>            (all variants)
+//   solve <mode> <reset: 0 no, 1 Reset(), 2 Finalize()+Init()+Reset()> <mxsteps> <dt> <ny0> <y0...>            (all variants;
+//         ny0 / NEQUATIONS is the number of systems passed to that Reset/Init - it may differ from the run's)
 //         cvode : <nout> (<flag> <frac>)* <nre> (<k> <flag>)* <setup_idx> <setup_flag> <tail_on> <tail_flag> <tail_frac>
 //         odeint: <nsteps> <shape> <throw_at> <throw_kind> <nsteps2> <throw_at2>
 //
@@ -146,6 +147,9 @@ int main(int argc, char **argv) {
         char *save = NULL;
         const char *tok = strtok_r(line, " \t\r\n", &save);
         if (!tok) continue;
+        // the watchdog covers everything done for a script line (Init/Reset/Finalize and the
+        // driver's own bookkeeping too: generated code that corrupts memory may hang anywhere)
+        alarm(alarm_s);
         if (strcmp(tok, "run") == 0) {
             TOK();
             g_cur_run = atol(tok);
@@ -208,9 +212,27 @@ int main(int argc, char **argv) {
             TOK();
             y0[(size_t)i] = strtod(tok, NULL);
         }
-        if (ny != NEQUATIONS * nsys) {
-            printf("badscript %ld ny=%d expected %d\n", g_cur_run, ny, NEQUATIONS * nsys);
-            return 2;
+        {
+            // the number of systems of this call is the length of its state; it may only change
+            // where the user calls Reset (or Finalize+Init+Reset) before the call
+            int nsys_now = ny / NEQUATIONS;
+            if (ny % NEQUATIONS != 0 || nsys_now < 1) {
+                printf("badscript %ld ny=%d not a multiple of %d\n", g_cur_run, ny, NEQUATIONS);
+                return 2;
+            }
+            if (nsys_now != nsys) {
+                if (!(do_reset || solve_idx == 0)) {
+                    printf("badscript %ld ny=%d expected %d\n", g_cur_run, ny, NEQUATIONS * nsys);
+                    return 2;
+                }
+                delete[] data;
+                data = new NaunetData[nsys_now]();
+                for (int i = 0; i < nsys_now; i++) {
+                    data[i].nH = 1e4;
+                    data[i].Tgas = 10.0;
+                }
+                nsys = nsys_now;
+            }
         }
 #ifdef VARIANT_ODEINT
         boost::numeric::odeint::mock_script &sc = boost::numeric::odeint::mock_current_script();
@@ -298,7 +320,7 @@ int main(int argc, char **argv) {
                 other_exc = 1;
             }
         }
-        alarm(0);
+        alarm(alarm_s);
         std::string rec = read_record_and_truncate();
         int note = 0, logged = -1;
         if (rc == NAUNET_FAIL) logged = check_record(rec, y0, &note);
